@@ -78,17 +78,19 @@ package dag
 //@   check [packs-ordered] err == nil ==> (forall k int :: { oppSlice[k] } forall l int :: { oppSlice[l] } 0 <= k && k < l && l < len(oppSlice) ==> !((oppSlice[l].EditTime != oppSlice[k].EditTime) ? oppSlice[l].EditTime < oppSlice[k].EditTime : oppSlice[l].Id() < oppSlice[k].Id()))
 // ... and a history is refused for a clock jump only on a non-merge hop of more than 1,000,000: merge commits are
 // exempt (merging after a long time must not make a valid entity unreadable)
-//@   assert at `fmt.Errorf("lamport clock jumping` [only-non-merge-jumps-refused] len(commit.Parents) <= 1 && opp.EditTime - parentPack.EditTime > 1000000
+//@   assert at `fmt.Errorf("lamport clock jumping` [only-non-merge-jumps-refused] len(commit.Parents) <= 1 && opp.EditTime - parentPack.EditTime > 1000000 && repository.clockSeen == old(repository.clockSeen)
 // C03/C07: what enters the map of packs: a merge commit carries no operation (whatever its number of parents), the
 // root carries a creation time, and there is one root only - histories that break one of these are refused
 //@   assert at `oppMap[commit.Hash] = opp` [merge-commits-carry-no-operation] len(commit.Parents) > 1 ==> len(opp.Operations) == 0
 //@   assert at `oppMap[commit.Hash] = opp` [root-has-creation-time] len(commit.Parents) == 0 ==> opp.CreateTime > 0
+// (a history that is refused has moved no clock: the times of a hostile or corrupt history must not be witnessed - C07 -
+// or the next local edit is stamped with them)
 // ... and each refusal is made for its documented reason only (a valid history - any fork and merge shape git-bug
 // produces - must stay readable on every replica, or replicas stop converging: C01)
-//@   assert at `return *new(EntityT), fmt.Errorf("multiple leafs in the entity DAG")` [refused-only-for-a-second-root] rootCount > 1 && len(commit.Parents) == 0
-//@   assert at `return *new(EntityT), fmt.Errorf("merge commit cannot have` [refused-only-for-operations-on-a-merge] len(commit.Parents) > 1 && len(opp.Operations) > 0
-//@   assert at `return *new(EntityT), fmt.Errorf("creation lamport time not set")` [refused-only-for-a-root-without-creation-time] len(commit.Parents) == 0 && opp.CreateTime <= 0
-//@   assert at `return *new(EntityT), fmt.Errorf("lamport clock ordering doesn't match` [refused-only-for-a-clock-not-after-its-parent] parentPack.EditTime >= opp.EditTime
+//@   assert at `return *new(EntityT), fmt.Errorf("multiple leafs in the entity DAG")` [refused-only-for-a-second-root] rootCount > 1 && len(commit.Parents) == 0 && repository.clockSeen == old(repository.clockSeen)
+//@   assert at `return *new(EntityT), fmt.Errorf("merge commit cannot have` [refused-only-for-operations-on-a-merge] len(commit.Parents) > 1 && len(opp.Operations) > 0 && repository.clockSeen == old(repository.clockSeen)
+//@   assert at `return *new(EntityT), fmt.Errorf("creation lamport time not set")` [refused-only-for-a-root-without-creation-time] len(commit.Parents) == 0 && opp.CreateTime <= 0 && repository.clockSeen == old(repository.clockSeen)
+//@   assert at `return *new(EntityT), fmt.Errorf("lamport clock ordering doesn't match` [refused-only-for-a-clock-not-after-its-parent] parentPack.EditTime >= opp.EditTime && repository.clockSeen == old(repository.clockSeen)
 //@   check [single-root] err == nil ==> (forall k int :: { BFSOrder[k] } forall l int :: { BFSOrder[l] } 0 <= k && k < len(BFSOrder) && 0 <= l && l < len(BFSOrder) && len(BFSOrder[k].Parents) == 0 && len(BFSOrder[l].Parents) == 0 ==> k == l)
 //@   check [clock-edge] err == nil ==> (forall k int :: { BFSOrder[k] } 0 <= k && k < len(BFSOrder) ==> (forall j int :: { BFSOrder[k].Parents[j] } 0 <= j && j < len(BFSOrder[k].Parents) ==> (BFSOrder[k].Parents[j] in oppMap) && oppMap[BFSOrder[k].Parents[j]].EditTime < oppMap[BFSOrder[k].Hash].EditTime))
 //@   check [clock-jump] err == nil ==> (forall k int :: { BFSOrder[k] } 0 <= k && k < len(BFSOrder) && len(BFSOrder[k].Parents) <= 1 ==> (forall j int :: { BFSOrder[k].Parents[j] } 0 <= j && j < len(BFSOrder[k].Parents) ==> oppMap[BFSOrder[k].Hash].EditTime - oppMap[BFSOrder[k].Parents[j]].EditTime <= 1000000))
@@ -504,7 +506,7 @@ package dag
 //@   modifies mergeRuns
 //@   defines [counted] mergeRuns == old(mergeRuns) + 1
 //@ func Pull
-//@   props C02
+//@   props C02 C06
 //@   stable mergeRuns
 //@   ensures [a-successful-pull-has-merged] result == nil ==> mergeRuns == old(mergeRuns) + 1
 //@   loop 1
@@ -522,3 +524,14 @@ package dag
 //@ func (*SetMetadataOperation).Apply
 //@   props C10
 //@   assert at `target.setExtraMetadataImmutable(key, value)` [only-the-target-gets-the-metadata] target.Id() == op.Target
+// the kind of an operation is a fixed attribute of it
+//@ func Operation.Type
+//@   purefn
+
+// The witnesser of a clock loader (C05: clocks that are missing are rebuilt from the stored entities): it starts the
+// rebuild for *every* definition the loader was made for - one per definition - and reports what they report.
+//@ func ClockLoader$1
+//@   props C05 C06
+//@   check [every-definition-is-rebuilt] errgroup.started == old(errgroup.started) + len(defs)
+//@   loop 1
+//@     invariant errgroup.started == old(errgroup.started) + rangeindex + 1
